@@ -224,6 +224,21 @@ CHECKS["C13"] = dict(
          "(its default phases do not include '(aq)') - recorded as an observation in DESIGN.md",
     technique="CrossHair symbolic execution (z3) of PEP316 contract harnesses calling the real renderers", ref="DESIGN.md section 5 C13")
 
+CHECKS["C01"] = dict(
+    engine="R+Z+X", category="other",
+    text="three-layer bounded symbolic verification of the real parser: (R) the token regexes read from the LIVE pyparsing grammar are "
+         "translated from CPython's sre IR to z3 - element language == the 118 reference symbols, ordered-choice match length on every 2- "
+         "and 3-character window == longest symbol prefix (Co vs CO, non-element capitals start no term), count regex == maximal numeral; "
+         "(Z) the real grammar + parse actions + hydrate/charge code run on ~700 (thorough ~6000) generated formula skeletons whose numerals "
+         "are placeholders bound to z3 variables, and z3 proves every returned composition entry equal to the value of the generated "
+         "derivation tree for ALL numeral values; (X) CrossHair confirms the charge / prefix / suffix / leading-count string helpers",
+    note="stubs: chempy.util.parsing.float/.int injected (numerals denote z3 variables; digit lexing is the R and X layers); skeleton "
+         "elements are an adjacency-critical set of 10, all-elements coverage is the R layer; combining the layers into the end-to-end "
+         "statement is an informal argument; rejection of unbalanced brackets is checked by concrete replays only (sanity, not solver "
+         "evidence); non-ASCII digits outside",
+    technique="sre->z3 regex translation; symbolic execution of the real grammar on numeral placeholders with z3 (Engine Z); CrossHair",
+    ref="DESIGN.md section 5 C01")
+
 NA = {
     "C09": "property is about float conversion factors produced inside the 'quantities' package and numpy array helpers; no symbolic "
            "value survives to_unitless (float(result)), and symbolic magnitudes alone would only re-prove linearity (DESIGN.md section 6)",
